@@ -1,4 +1,5 @@
 import DFV.Lemmas.C02Slices
+import DFV.Lemmas.C02Patch
 /-! C02: the concrete mesh used by the non-vacuity examples of `Props/C02.lean`. -/
 namespace DFV.C02.Ex
 open DFV DFV.C02
@@ -35,5 +36,42 @@ theorem m0_aligned : ∀ p ∈ m0.subs, AlignedSub m0 p.2 (k1 p) (k2 p) := by
     have hne : ¬ ("r2" = "r1") := by decide
     rcases lt_two a ha with rfl | rfl <;> rw [hc] <;>
       norm_num [k1, k2, Mesh.nAt, Region.hi, Region.lo, m0, reg, hne]
+
+/-- the 4 × 2 mesh with other dimension names -/
+def mD (d0 d1 : String) : Mesh := ⟨⟨[0, 0], [4, 2], [d0, d1], ["m", "m"], 1 / 1000000000000⟩, [4, 2], "", []⟩
+
+theorem mD_inv (d0 d1 : String) (h : d0 ≠ d1) : (mD d0 d1).Inv := by
+  refine ⟨⟨by simp [mD], rfl, rfl, rfl, ?_, fun a ha => ?_⟩, rfl, fun a ha => ?_⟩
+  · simp [hasDup, mD]; exact fun e => h e
+  · rcases lt_two a ha with rfl | rfl <;> norm_num [mD, Region.lo, Region.hi]
+  · rcases lt_two a ha with rfl | rfl <;> simp [mD, Mesh.nAt]
+
+theorem mD_corner0 (d0 d1 : String) : (mD d0 d1).region.containsExact [0, 0] :=
+  ⟨rfl, fun a ha => by rcases lt_two a ha with rfl | rfl <;> norm_num [mD, Region.lo, Region.hi]⟩
+
+theorem mD_corner1 (d0 d1 : String) : (mD d0 d1).region.containsExact [4, 2] :=
+  ⟨rfl, fun a ha => by rcases lt_two a ha with rfl | rfl <;> norm_num [mD, Region.lo, Region.hi]⟩
+
+/-- the 4 × 2 mesh with one subregion that covers it -/
+def mAll : Mesh := ⟨reg [0, 0] [4, 2], [4, 2], "", [("all", reg [0, 0] [4, 2])]⟩
+def kA1 (_ : String × Region) (_ : Nat) : Nat := 0
+def kA2 (_ : String × Region) (a : Nat) : Nat := if a = 0 then 4 else 2
+
+theorem mAll_inv : mAll.Inv := m0_inv
+
+theorem mAll_aligned : ∀ p ∈ mAll.subs, AlignedSub mAll p.2 (kA1 p) (kA2 p) := by
+  intro p hp
+  simp only [mAll, List.mem_cons, List.mem_nil_iff, or_false] at hp
+  subst hp
+  refine ⟨rfl, fun a ha => ?_⟩
+  have hc : mAll.cellAt a = 1 := m0_cell a ha
+  rcases lt_two a ha with rfl | rfl <;> rw [hc] <;>
+    norm_num [kA1, kA2, Mesh.nAt, Region.hi, Region.lo, mAll, reg]
+
+/-- the submesh of `r1` in `m0` satisfies the mesh invariant -/
+theorem m0_sub_r1_inv : (subMeshOf m0 (reg [0, 0] [2, 2]) (k1 ("r1", reg [0, 0] [2, 2])) (k2 ("r1", reg [0, 0] [2, 2]))).Inv := by
+  refine ⟨⟨by decide, rfl, rfl, rfl, by decide, fun a ha => ?_⟩, rfl, fun a ha => ?_⟩
+  · rcases lt_two a ha with rfl | rfl <;> decide
+  · rcases lt_two a ha with rfl | rfl <;> decide
 
 end DFV.C02.Ex
